@@ -39,7 +39,9 @@ type Needle struct {
 	Public  bool // public material (must stay hidden until a transaction is recorded)
 }
 
-func (n *Needle) String() string { return fmt.Sprintf("%s [%s, %d bytes]", n.What, n.Class, len(n.Bytes)) }
+func (n *Needle) String() string {
+	return fmt.Sprintf("%s [%s, %d bytes]", n.What, n.Class, len(n.Bytes))
+}
 
 // NeedleSet is a growing set of needles with a prefix index.
 type NeedleSet struct {
